@@ -481,10 +481,11 @@ def single_loop_part(tier, seed, res):
         for r in common.bounded_map(ex, lambda c: l1.run_case(*c), cases):
             n += 1
             res.evaluations += 1
-            msg = lost_post_oracle(r.log)
+            msg = lost_post_oracle(r.log) or (("monitor C08 rejects the implementation's log: " + r.mon["C08"]) if "C08" in r.mon else None)
             if msg:
                 def pred(ls):
-                    return lost_post_oracle(l1.run_case("s", ls).log) is not None
+                    rr = l1.run_case("s", ls)
+                    return lost_post_oracle(rr.log) is not None or "C08" in rr.mon
                 small = l1.shrink_scenario(r.lines, pred, budget=60)
                 pth = common.write_case(PROP, r.name, ["# single-loop case (replayed by vlib/l1.py)"] + small, tier, seed, ext="scn")
                 res.impl_violations.append(("c08:loop:lost-post", "implementation violates C08: " + msg, pth))
@@ -521,8 +522,9 @@ def replay(path):
         from . import l1
         rc = l1.replay(path)
         lines = [l.rstrip("\n") for l in open(path) if l.strip() and not l.startswith("#")]
-        msg = lost_post_oracle(l1.run_case("replay", lines).log)
-        print("--- lost-post oracle:", msg or "ok")
+        rr = l1.run_case("replay", lines)
+        msg = lost_post_oracle(rr.log) or rr.mon.get("C08")
+        print("--- lost-post oracle / Mon.C08:", msg or "ok")
         return 1 if (rc or msg) else 0
     scn = [l.rstrip("\n") for l in open(path) if l.strip() and not l.startswith("#")]
     ok, log = build()
